@@ -203,6 +203,8 @@ def bstr_to_int(ex, s, base):
     """int(s) / int(s, 10) for a BStr of decimal digits (optional leading '-'); ValueError otherwise.
     Whitespace/underscore/plus forms are treated as ValueError-or-Unsupported: the contract's
     precondition language must exclude them (checked: any other char -> Unsupported)."""
+    if base == 0:
+        return bstr_to_int0(ex, s)
     if base not in (None, 10):
         raise Unsupported("int(BStr, base)")
     if ex.branch(s.length == 0):
@@ -220,6 +222,45 @@ def bstr_to_int(ex, s, base):
     val = z3.IntVal(0)
     for i in range(start, s.cap):
         val = z3.If(s.length > i, val * 10 + (s.chars[i] - 48), val)
+    return SNum(-val if neg else val, True)
+
+
+def bstr_to_int0(ex, s):
+    """int(s, 0) for -?[0-9]+ (no leading zeros unless the value is 0) | -?0[xX][0-9a-fA-F]+ ; ValueError otherwise
+    (blanks, underscores, '+', 0o/0b prefixes -> Unsupported: the contract's language must exclude them)"""
+    if ex.branch(s.length == 0):
+        raise PyRaise("ValueError", "int('', 0)")
+    bad = z3.Or([z3.And(s.length > i, z3.Or([c == ord(x) for x in " \t\n\r_+"])) for i, c in enumerate(s.chars)])
+    if ex.branch(bad):
+        raise Unsupported("int(s, 0) with blanks/underscore/plus")
+    neg = ex.branch(s.chars[0] == ord("-"))
+    st = 1 if neg else 0
+    ch = lambda i: s.chars[i] if i < s.cap else z3.IntVal(0)
+    if ex.branch(z3.And(s.length >= st + 2, ch(st) == ord("0"), z3.Or([ch(st + 1) == ord(x) for x in "oObB"]))):
+        raise Unsupported("int(s, 0) with octal/binary prefix")
+    is_hex = ex.branch(z3.And(s.length >= st + 2, ch(st) == ord("0"), z3.Or(ch(st + 1) == ord("x"), ch(st + 1) == ord("X"))))
+    if is_hex:
+        st += 2
+        if ex.branch(s.length <= st):
+            raise PyRaise("ValueError", "int('0x', 0)")
+        hexd = lambda c: z3.Or(char_isdigit(c), z3.And(c >= 97, c <= 102), z3.And(c >= 65, c <= 70))
+        if not ex.branch(z3.And([z3.Or(s.length <= i, hexd(c)) for i, c in enumerate(s.chars) if i >= st])):
+            raise PyRaise("ValueError", "int(non-hex, 0)")
+        dv = lambda c: z3.If(char_isdigit(c), c - 48, z3.If(c >= 97, c - 87, c - 55))
+        val = z3.IntVal(0)
+        for i in range(st, s.cap):
+            val = z3.If(s.length > i, val * 16 + dv(s.chars[i]), val)
+    else:
+        if ex.branch(s.length <= st):
+            raise PyRaise("ValueError", "int('-', 0)")
+        if not ex.branch(z3.And([z3.Or(s.length <= i, char_isdigit(c)) for i, c in enumerate(s.chars) if i >= st])):
+            raise PyRaise("ValueError", "int(non-digit, 0)")
+        allzero = z3.And([z3.Or(s.length <= i, c == 48) for i, c in enumerate(s.chars) if i >= st])
+        if ex.branch(z3.And(ch(st) == 48, s.length > st + 1, z3.Not(allzero))):
+            raise PyRaise("ValueError", "leading zeros in decimal literal")
+        val = z3.IntVal(0)
+        for i in range(st, s.cap):
+            val = z3.If(s.length > i, val * 10 + (s.chars[i] - 48), val)
     return SNum(-val if neg else val, True)
 
 
